@@ -21,6 +21,7 @@ import struct
 import zlib
 
 import common
+import whitebox
 import images
 import insp_impl
 from common import Disagreement, req
@@ -1268,7 +1269,7 @@ def impl_run(fmt, data, sizes, query=None, every_chunk=None, feed='bytes', ctor=
 
 def bad_slices(i, data):
     """names of the regions whose retained bytes are not the stream's bytes at the region's offset"""
-    return [n for n, r in i._capture_regions.items() if bytes(r.data) != data[r.offset:r.offset + len(r.data)]]
+    return [n for n, r in whitebox.regions(i).items() if bytes(r.data) != data[r.offset:r.offset + len(r.data)]]
 
 
 def shrink_cuts(n, sizes, still_fails):
